@@ -117,19 +117,35 @@ def coq_make(targets, timeout=1800, jobs=16):
 
 
 def coq_build_cone(dirs, timeout=1800, clean_dirs=()):
-    """Build Common + the given property directories in dependency order (coqdep -sort), under a file lock so that
-    concurrent checks do not write the same .vo at once.  Returns (rc, output)."""
+    """Build Common + the given property directories in dependency order (coqdep -sort).  One lock per directory
+    (coq/<dir>/.lock) is held while files of that directory are checked/compiled, so that concurrent checks of
+    different properties only serialise on the directories they share.  Returns (rc, output)."""
     import fcntl
     files = []
     for d in ["Common"] + [x for x in dirs if x != "Common"]:
         files += sorted(glob.glob(os.path.join(COQ, d, "*.v")))
     rel = [os.path.relpath(f, COQ) for f in files]
-    lock = open(os.path.join(COQ, ".lock"), "w")
-    fcntl.flock(lock, fcntl.LOCK_EX)
+    held = {"dir": None, "fh": None}
+
+    def lock_dir(d):
+        if held["dir"] == d:
+            return
+        unlock()
+        fh = open(os.path.join(COQ, d, ".lock"), "w")
+        fcntl.flock(fh, fcntl.LOCK_EX)
+        held["dir"], held["fh"] = d, fh
+
+    def unlock():
+        if held["fh"] is not None:
+            fcntl.flock(held["fh"], fcntl.LOCK_UN)
+            held["fh"].close()
+            held["dir"], held["fh"] = None, None
     try:
         for d in clean_dirs:
+            lock_dir(d)
             for f in glob.glob(os.path.join(COQ, d, "*.vo")):
                 os.remove(f)
+        unlock()
         rc, out = sh(["coqdep", "-sort", "-Q", ".", "Verif"] + rel, cwd=COQ, timeout=120, quiet=True)
         if rc != 0:
             return rc, out
@@ -138,6 +154,7 @@ def coq_build_cone(dirs, timeout=1800, clean_dirs=()):
         log_out = []
         t0 = time.time()
         for v in order:
+            lock_dir(v.split("/")[0].lstrip("./") or "Common")
             vp = os.path.join(COQ, v)
             vo = vp + "o"
             need = (not os.path.exists(vo)) or os.path.getmtime(vo) < os.path.getmtime(vp) or os.path.getmtime(vo) < newest
@@ -149,8 +166,7 @@ def coq_build_cone(dirs, timeout=1800, clean_dirs=()):
             newest = max(newest, os.path.getmtime(vo))
         return 0, "\n".join(log_out)
     finally:
-        fcntl.flock(lock, fcntl.LOCK_UN)
-        lock.close()
+        unlock()
 
 
 def coqc(path, timeout=900, cwd=None, extra=()):
